@@ -78,7 +78,7 @@ theorem connected_id_bound (h : Sep l r) : ∀ n ∈ (connected l r).nodes3, n.i
 /-- **Well-formedness is preserved by `connect_bags`** (when its checks pass). -/
 theorem connected_wf (h : Sep l r) (hc : Checked (connectRaw l r) (connected l r)) : (connected l r).WF where
   ids := connected_id_bound h
-  single := hc.single
+  outs := hc.outs
   inLeaf := hc.leaves
   inNames := names_inj_of_nodup hc.inDup
   outNames := by
